@@ -545,6 +545,11 @@ def c18(tier):
         recv_spec('deliver-same-cycle-frag', ['C18'], family=dict(opcode=1, L=2, max_frags=3, ctrl_len=1), cuts='bytewise'),
         recv_spec('deliver-same-cycle-allcuts', ['C18'], N=4 if q else 5, cuts='sym'),
     ]
+    burst = dict(long_frame=True, long_lens=[16000, 16384, 20000] if q else [16000, 16384, 20000, 65536, 70000], long_split=False)
+    specs += [recv_spec('burst-behind-reply', ['C18'], reads='joined', **burst),
+              recv_spec('burst-tls-records', ['C18'], reads='tls16k', **burst)]
+    specs[-2].what = ('the upgrade reply and a burst of 16-70 KB behind it arrive in ONE read (plain transport, as much as the 64 KiB buffer takes): ' + specs[-2].what)
+    specs[-1].what = ('16 KiB TLS-like records, the upgrade reply split over two records (split position = solver variable), full records behind it: ' + specs[-1].what)
     for s_ in specs[1:]:
         s_.what = ('real parser pipeline (no stubbed feed): ' + s_.what + '; obligation: at every read boundary, every message whose last byte has '
                    'arrived has been delivered, and its Pong written, before the loop waits on the selector again')
@@ -619,6 +624,9 @@ def c11(tier):
         sched_spec('sender-vs-loop', tags, [['send_text'], ['pong', 'auto_ping']], 2, W + ' (event loop pong/ping vs application send)'),
         sched_spec('sender-vs-real-loop', tags, [['loop'], ['send_text']], 2,
                    W + ' (thread 1 runs the REAL event loop: ws.connect() receives a Ping and writes its automatic Pong while thread 2 sends)', xval_stride=5),
+        sched_spec('big-message-vs-sender', tags, [['send_big'], ['send_text']], 1,
+                   W + '; thread 1 sends ONE 70 000-byte binary message (should the library split it into several frames/writes, no other '
+                       'thread\'s data frame may stand between them: the peer reassembles per RFC 6455 5.4)'),
         sched_spec('three-messages-compressed', tags, [['send_text', 'send_text'], ['send_binary']], 1,
                    W + '; one thread sends two compressed messages with another thread\'s message possibly between them (shared context)',
                    compress=dict(client_no_takeover=False)),
